@@ -92,9 +92,12 @@ __gmp_doprnt_mpf (const struct doprnt_funs_t *funs,
            underestimate the zeros between the radix point and the first
            digit and subtract that from prec.  In either case add 2 so the
            round to nearest can be applied accurately.  */
-        ndigits = prec + 2
-          + EXP(f) * (__mp_bases[ABS(p->base)].chars_per_limb + (EXP(f)>=0));
-        ndigits = MAX (ndigits, 1);
+        /* That estimate made mpf_get_str round to a few digits more than
+           wanted and the code below round its result a second time: 0.12499
+           printed with "%.2Ff" became 0.1250 and then 0.13.  Ask for all
+           significant digits instead, so that the only rounding is the one
+           done here.  */
+        ndigits = 0;
         break;
 
       case DOPRNT_CONV_SCIENTIFIC:
